@@ -642,7 +642,7 @@ def gen_C08(tier, rng):
             dist["wide%d" % nv] += 1
             cases.append(c.done("wide%d/%d" % (nv, rep), True))
     return {"cases": cases, "exhaustive": tier != "quick", "dist": dict(dist),
-            "rule": "every truth function of <= 2 variables over {a,b} as f; maps with one key from {a, b, foreign z} and every replacement from a pool of 17 functions over subsets of {a,b,c} (literals, negated literals, constants, and/or/xor of two), and two-key maps (quick: 120 sampled, thorough: all); three representations; 3-variable f with random 1-3 key maps; sparse 7-8 (9) input f with 2-4 keys and replacements over other inputs and shared fresh variables; non-trivial = a replacement mentions another key, or a key is foreign, or a fresh variable is introduced; the distribution counts these classes and the documented self-reference refusal"}
+            "rule": "every truth function of <= 2 variables over {a,b} as f; maps with one key from {a, b, foreign z} and every replacement from a pool of 17 functions over subsets of {a,b,c} (literals, negated literals, constants, and/or/xor of two), and two-key maps (quick: 120 sampled, thorough: all); three representations; 3-variable f with random 1-3 key maps; sparse 7-8 (9) input f with 2-4 keys and replacements over other inputs and shared fresh variables; non-trivial = a replacement mentions another key, or a key is foreign, or a fresh variable is introduced; the distribution counts these classes and the documented self-reference refusal; plus Expression::rename_literals: every map of <= 2 entries with keys in {a,b,z} and values in {a,b,c,z} (identity, swap, chain, merge, foreign key) on every function of <= 2 variables in three shapes, and random maps on random trees (constants, empty nodes) and on results of operations"}
 
 
 # ------------------------------------------------------------------ C09 / C10
@@ -782,7 +782,7 @@ def gen_C10(tier, rng):
         k_ = c.r("op1 not %d" % r2); c.q("weight %d %d" % (k_, (1 << nvars) - weight))
         cases.append(c.done("wide%d" % n, True)); dist["wide_%d" % nvars] = dist.get("wide_%d" % nvars, 0) + 1
     return {"cases": cases, "exhaustive": True, "dist": dist,
-            "rule": "every truth function of <= %d variables in the three representations: domain, image, relation, support, weight, sat_point, degrees (iterators also polled after exhaustion); conjunctions of 0..%d literals for the domain order; every expression tree with <= 4 nodes, a sample of 5-node trees and every small negation-free tree (enumerations of expressions in arbitrary shapes); random 5-9 input functions; diagrams with 20..100 inputs whose weight is known in closed form (beyond 2^53 and 2^64); oracle: domain = 2^n points in lexicographic order, image = specified function in that order, relation = zip, support = exactly the 1-points (as a set for diagrams), weight = their number, sat_point in support / none iff empty; non-trivial = all; distinct = function" % (3 if tier == "quick" else 4, 8 if tier == "quick" else 10)}
+            "rule": "every truth function of <= %d variables in the three representations: domain, image, relation, support, weight, sat_point, degrees (iterators also polled after exhaustion); conjunctions of 0..%d literals for the domain order; every expression tree with <= 4 nodes, a sample of 5-node trees and every small negation-free tree (enumerations of expressions in arbitrary shapes); random 5-9 input functions; diagrams with 20..100 inputs whose weight is known in closed form (beyond 2^53 and 2^64); oracle: domain = 2^n points in lexicographic order, image = specified function in that order, relation = zip, support = exactly the 1-points (as a set for diagrams), weight = their number, sat_point in support / none iff empty; non-trivial = all; distinct = function; for every enumerated object the four iterators are created first and stepped in turn 2^n + 2 times by next(), nth(n) and nth(2^n - 1) each followed by next(), count() and last() on fresh iterators and after nth(n); next(), size_hint() of fresh and partly consumed iterators must bound what is left; the public boolean_point_to_valuation with points of length n - 1, n, n + 1" % (3 if tier == "quick" else 4, 8 if tier == "quick" else 10)}
 
 
 # ------------------------------------------------------------------ C11
@@ -1499,7 +1499,7 @@ def gen_C20(tier, rng):
         dist["parser_history"] += 1
         cases.append(c.done(c.id, True))
     return {"cases": cases, "exhaustive": False, "dist": dict(dist),
-            "rule": "random programs as for C15; every instruction and every observation (structure, Debug form, enumerations incl. support order and sat point, CSV / rendered / printed text) is computed twice within one process and again in further separate processes with fresh hash seeds; all must be identical, and the operand registers are observed again after all later instructions, in shuffled order; the second execution runs on node-by-node rebuilt copies of all registers (equal arguments, different objects), with aliasing programs (the same register as both operands; results of operations that had nothing to do combined with their origin); plus every conversion of every function of <= 3 variables and of conjunctions / disjunctions of 2-8 literals; plus parser histories (an identifier that starts with a keyword, then the keyword itself, for every keyword spelling), plus streams of 40 short-lived expressions whose normal forms are computed and dropped at once (hidden caches keyed by addresses or earlier calls), plus a source scan for interior mutability; non-trivial = all; distinct = program"}
+            "rule": "random programs as for C15; every instruction and every observation (structure, Debug form, enumerations incl. support order and sat point, CSV / rendered / printed text) is computed twice within one process and again in further separate processes with fresh hash seeds; all must be identical, and the operand registers are observed again after all later instructions, in shuffled order; the second execution runs on node-by-node rebuilt copies of all registers (equal arguments, different objects), with aliasing programs (the same register as both operands; results of operations that had nothing to do combined with their origin); plus every conversion of every function of <= 3 variables and of conjunctions / disjunctions of 2-8 literals; plus parser histories (an identifier that starts with a keyword, then the keyword itself, for every keyword spelling), plus streams of 40 short-lived expressions whose normal forms are computed and dropped at once (hidden caches keyed by addresses or earlier calls), plus a source scan for interior mutability; non-trivial = all; distinct = program; every new register is probed in place with the &self methods of the public API and must still == the clone taken before and keep its Debug text; eleven rejected CSV texts (several different repeated header names, ragged, incomplete, non-Boolean) read three times per process through both entry points, error messages compared"}
 
 
 GENERATORS.update({"C20": gen_C20})
@@ -1631,7 +1631,7 @@ def gen_C19(tier, rng):
     k = c.r("subst %d 1 %s %d" % (regs[2], hexname("a"), g[2])); c.q("obs %d" % k)
     cases.append(c.done(c.id, True)); dist["refusal"] += 1
     return {"cases": cases, "exhaustive": False, "dist": dict(dist),
-            "rule": "scripted call sequences over every method of the Python Expression / Table / Bdd classes (the method list is read from dir() of the built module; an uncalled method fails the check): construction, connectives, conversions, restriction, substitution, quantifiers, derivative, comparisons, evaluation in the three modes, iterators, text forms, CSV import with every error kind, parsing through the constructor, wrong constructor arguments; executed through the extension module built from /repo, the Rust API (harness) and the model; every value the Python call returns must equal the Rust one and exceptions must be of the documented kind; non-trivial = all; distinct = script"}
+            "rule": "scripted call sequences over every method of the Python Expression / Table / Bdd classes (the method list is read from dir() of the built module; an uncalled method fails the check): construction, connectives, conversions, restriction, substitution, quantifiers, derivative, comparisons, evaluation in the three modes, iterators, text forms, CSV import with every error kind, parsing through the constructor, wrong constructor arguments; executed through the extension module built from /repo, the Rust API (harness) and the model; every value the Python call returns must equal the Rust one and exceptions must be of the documented kind; non-trivial = all; distinct = script; every program also compares each object with the same function declared over one more input (before / between / after), in both directions and with itself"}
 
 
 GENERATORS.update({"C19": gen_C19})
